@@ -356,6 +356,62 @@ fn raw_close_strategy() -> impl Strategy<Value = RawRecipe> {
     })
 }
 
+/// see the family `half_made_special_moves_asked_after_generation`
+pub fn c06_half_made(p: &Pos, st: &mut Stats) -> CaseResult {
+    let b = board_of(&p)?;
+    let z = crate::props::movegen::hasher();
+    let _ = catch(|| (gen_all(&b, z), gen_caps(&b, z))).map_err(|e| format!("generation panicked on '{}': {}", p.fen(), e))?;
+    st.eval();
+    let mut asked = 0;
+    for m in p.pseudo() {
+        let class = p.classify(&m);
+        let mut q = p.clone();
+        let mover = p.sq[m.from as usize];
+        match class {
+            MoveClass::EnPassant => {
+                // capturer on the target, victim still there
+                q.sq[m.to as usize] = mover;
+                q.sq[m.from as usize] = None;
+            }
+            MoveClass::Castle => {
+                // king moved, rook still at home
+                q.sq[m.to as usize] = mover;
+                q.sq[m.from as usize] = None;
+            }
+            MoveClass::Promo | MoveClass::PromoCapture => {
+                // the pawn itself on the last rank
+                q.sq[m.to as usize] = mover;
+                q.sq[m.from as usize] = None;
+            }
+            _ => continue,
+        }
+        q.ep = None;
+        q.wk = false;
+        q.wq = false;
+        q.bk = false;
+        q.bq = false;
+        for stm in [p.stm, p.stm.opp()] {
+            q.stm = stm;
+            // from_fen accepts these boards (it does not judge legality); skip if it does not
+            let Ok(qb) = BoardState::from_fen(&q.fen()) else { continue };
+            for c in [Color::White, Color::Black] {
+                let Some(k) = q.king_sq(c) else { continue };
+                let want = q.attacked(k, c.opp());
+                let got = catch(|| is_check(&qb, ecol_of(c))).map_err(|e| format!("is_check panicked on '{}': {}", q.fen(), e))?;
+                asked += 1;
+                if got != want {
+                    return Err(format!("after generating the moves of '{}' on this thread, is_check({:?}) = {} on the neighbouring board '{}' (the half-made move {}), but under the rules that king is {}", p.fen(), c, got, q.fen(), mv_name(&m), if want { "attacked" } else { "not attacked" }));
+                }
+            }
+        }
+    }
+    if asked > 0 {
+        st.nontrivial(fp(&p.fen()));
+        st.label("positions_with_half_made_special_moves");
+    }
+    Ok(())
+}
+
 pub fn run_c06(ctx: &mut Ctx) {
     let t = ctx.tier;
     run_enum(
@@ -502,6 +558,25 @@ pub fn run_c06_generated(ctx: &mut Ctx) {
         },
         |(ci, choices, expiry, placements)| json!({"after_search": {"corpus": ci, "choices": choices, "expiry": expiry}, "fens": placements.iter().filter_map(build_raw).map(|p| p.fen()).collect::<Vec<_>>()}),
     );
+    // is_check on boards that are NEIGHBOURS of a position whose moves were just generated on the
+    // same thread: the half-made special moves (en passant capturer on the target square with the
+    // victim still standing; king already castled with the rook still at home; pawn on the last rank
+    // before it is replaced). A generator that consults is_check while a move is half made, and
+    // anything that remembers answers by key, can leave a wrong answer behind for exactly these boards.
+    run_prop(
+        ctx,
+        "half_made_special_moves_asked_after_generation",
+        || prop_oneof![3 => placement_ep(), 2 => placement_castle(), 2 => placement_promo(), 1 => placement_general()],
+        t.pick(40_000, 600_000),
+        |r, st| {
+            let Some(p) = build_placement(r) else { return Ok(()) };
+            c06_half_made(&p, st)
+        },
+        |r| match build_placement(r) {
+            Some(p) => json!({"half_made": true, "fen": p.fen()}),
+            None => json!({"fen": null}),
+        },
+    );
     run_prop(
         ctx,
         "generator_produced_boards_on_walks",
@@ -606,6 +681,9 @@ pub fn replay_c06(case: &Value) -> CaseResult {
     }
     let fen = case.get("fen").and_then(|x| x.as_str()).ok_or("no fen in replay case")?;
     let p = Pos::parse_fen(fen).ok_or("fen does not parse")?;
+    if case.get("half_made").is_some() {
+        return c06_half_made(&p, &mut Stats::new());
+    }
     c06_position(&p, &mut Stats::new())
 }
 
